@@ -9,9 +9,10 @@ RULE = ("loop-free closed graphs on n<=5 cells (n<=6 thorough), random forests t
         "thresholds (absolute and relative), area thresholds 1/3/8, Pfafstetter depths 1..3, upstream-area fields with and "
         "without ties; every output is also checked against the closure statement, the area bound, the order-change rule "
         "and the Pfafstetter digit / refinement / odd-along-main-stem rules; non-trivial = more than one sub-basin")
-ASSUMPTIONS = ["Pfafstetter: closure, digits, refinement and main-stem ordering are decided by the oracle on the "
-               "implementation's output and by correspondence with the faithful model (no theorem yet)",
-               "np.argsort is modelled as a stable sort (it is for the short arrays involved)",
+ASSUMPTIONS = ["the Pfafstetter theorems (closure, digits, refinement, odd digits up the main stem) assume upstream areas that are positive "
+               "and strictly larger downstream (every accumulation of positive cell areas); the area bound assumes a level order "
+               "(both orders the library produces are proved to be one)",
+               "np.argsort is modelled as a stable sort; cases whose tributaries tie are compared through the oracle only",
                "upstream areas are integers in the model"]
 
 
